@@ -128,12 +128,17 @@ def rule_reset(ctx: Ctx, prog: Program) -> None:
     ctx.fn(fn.fq)
     it = Interp(prog, no_inline={"cp_init": None})
     res = [r for r in it.run(fn) if r.outcome == "return"]
-    if len(fn.params) != 6:
-        raise AnalysisError("reset: expected 6 parameters")
-    pb, st_, fl, up, tp, trig = fn.params
+    from .engine import role_param
+    st_ = role_param(prog, fn, "shr_domains_stack")
+    fl = role_param(prog, fn, "not_entailed_propagators_stack")
+    up = role_param(prog, fn, "dom_update_stack")
+    tp = role_param(prog, fn, "stacks_top")
+    trig = role_param(prog, fn, "triggered_propagators")
     for r in res:
         inits = calls_named(r.events, "cp_init")
-        fills = [e for e in r.events if e.kind == "store" and e.root == trig and (not e.idx or all(c == ALL for c in e.idx)) and e.value == ONE]
+        # after reset EVERY constraint is queued: the final content of the queue, at a symbolic position, is True
+        final = it.load_at(r.state, len(r.state.heap), trig, (S("any_constraint"),))
+        fills = [1] if (isinstance(final, Aff) and final == ONE) else []
         okk = False
         if len(inits) == 1:
             a = [as_view(x) for x in inits[0].args]
@@ -149,7 +154,8 @@ def rule_reset(ctx: Ctx, prog: Program) -> None:
             ctx.ok("R-ANNOUNCE", "reset: cp_init from the initial domains")
         if len(fills) < 1:
             ctx.violation("R-ANNOUNCE", fn.path, "reset", "retrigger", fn.loc(),
-                          "reset rewrites every shared domain but does not re-queue every propagator (triggered_propagators.fill(True))")
+                          "reset rewrites every shared domain but does not leave every propagator queued (triggered_propagators.fill(True)): the constraints "
+                          "that are not re-queued are not executed on the restored domains, the first pass after a restart is not a fixpoint of all constraints")
         else:
             ctx.ok("R-ANNOUNCE", "reset: full re-trigger", sample={"store": "triggered_propagators[:] = True"})
     ctx.floor("R-ANNOUNCE:reset-paths", len(res), 1)
